@@ -360,7 +360,41 @@ def sig_divmod_symbol(case, res):
         ("(div " in gen.render(case) or "(mod " in gen.render(case))
 
 
+def sig_term_ite(case, res):
+    """a term-level ite (numeric or uninterpreted sort) occurring in assertions on both sides of the split: the definition
+    of the auxiliary .ite symbol belongs to one partition only and the interpolant is too weak (e.g. 'true')"""
+    d = res.detail or {}
+    w = str(d.get("what", ""))
+    if not (w.startswith("A-does-not-imply") or w.startswith("interpolant-consistent-with-B") or
+            w.startswith("path-property-fails") or w.startswith("interpolant-mentions")):
+        return False
+    def has_term_ite(t):
+        try:
+            e = sexpr.parse_one(t)
+        except Exception:
+            return False
+        found = [False]
+
+        def walk(x, boolctx):
+            if isinstance(x, list) and x:
+                if x[0] == "ite" and not boolctx:
+                    found[0] = True
+                arith = x[0] in ("+", "-", "*", "/", "<=", "<", ">=", ">", "=", "distinct", "div", "mod")
+                for y in x[1:]:
+                    walk(y, not arith and x[0] in ("and", "or", "not", "=>", "xor", "ite"))
+        walk(e, True)
+        return found[0]
+    A, B = d.get("A") or [], d.get("B") or []
+    if not A and not B:
+        idx = d.get("cmd_index", 0)
+        for i, c, act in gen.stack_walk(case):
+            if i == idx:
+                A = B = [strip_names(t) for t, _ in act]
+    return any(has_term_ite(t) for t in A) and any(has_term_ite(t) for t in B)
+
+
 SIGNATURES = {"interpolation-with-formula-asserted-more-than-once": sig_duplicate_formula,
+              
               "interpolant-mentions-div-mod-auxiliary": sig_divmod_symbol,
               "interpolation-group-conjunction-simplifies": sig_conjunction_simplified,
               "interpolation-with-an-assertion-equivalent-to-false": sig_false_assertion,
